@@ -175,12 +175,17 @@ def run_mux_family(ctx, prop):
     # GEN: one scenario per transition of the model's state graph
     gen = gen_tlc(ctx, 'Mux', 'Mux_gen_quick.cfg' if quick else 'Mux_gen_deep.cfg')
     scs = tag_scenarios(gen, 'mg', ctx.seed, 'mux')
+    # long behaviours of the same model (TLC simulation, 48 operations each: counter wrap-arounds, periods, version changes), with the
+    # model's per-call predictions like the exhaustive ones
+    sim = [g for g in gen_tlc(ctx, 'Mux', 'Mux_sim.cfg', simulate={'num': 120 if quick else 600, 'depth': 49}) if len(g['ops']) == 48]
+    scs += tag_scenarios(sim, 'ms', ctx.seed, 'mux')
     # seeded random long histories (wrap-arounds, periods 1..50, large payloads) from the harness's generator
     opt = 'demux' if prop == 'C01' else ''
     rnd = harness_gen(ctx, 'mux', 150 if quick else 3000, ctx.seed, 60 if quick else 220, opt=opt)
     return pipeline(
         ctx, monitor, 'mux', scs + rnd, opt=opt, drift_fn=mux_drift,
-        rule='scenario = muxer history (period + operation list); TLC-generated: one per transition of the Mux.tla state graph; random: seeded '
+        rule='scenario = muxer history (period + operation list); TLC-generated: one per transition of the Mux.tla state graph, and long behaviours from '
+             'TLC simulation (48 operations); random: seeded '
              'generator harness/muxgen.go; non-trivial = at least one packet-producing call; distinct by hash of period+ops',
         nontrivial=lambda s: any(o['op'] in ('data', 'tables', 'packet') for o in s['ops']),
         assumptions=['C17: an additional table emission is not a violation; failed calls are not counted (DESIGN.md 7)',
